@@ -10,6 +10,7 @@
 -/
 import PsutilModel.Proofs.C07Parse
 import PsutilModel.Proofs.C07Hist
+import PsutilModel.Proofs.C07Proc
 import PsutilModel.Model.C07Gen
 namespace Psutil.C07
 open Spec
@@ -288,70 +289,6 @@ theorem C07_negative_interval_raises (e : Env) (s : St) (c : Call) (i : Rat)
 
 /-! ## E. `Process.cpu_percent()` -/
 
-theorem numCpus_pos (k : Option Int) : 0 < numCpus k := by
-  unfold numCpus
-  cases k with
-  | none => norm_num
-  | some n =>
-    by_cases h : n < 1
-    · simp [h]
-    · simp only [h, if_false]
-      have : (1 : ℤ) ≤ n := not_lt.mp h
-      have : (1 : ℚ) ≤ (n : ℚ) := by exact_mod_cast this
-      linarith
-
-/-- the arithmetic: `(Δproc / (Δwall·n)) · 100 · n`, rounded = `round1(100·Δproc/Δwall)` -/
-theorem procFinish_eq (tck : Nat) (k : Option Int) (w1 w2 : Rat) (u1 s1 u2 s2 : Nat) :
-    procFinish cfg (numCpus k)
-        ⟨w1 * numCpus k, procSecs tck u1, procSecs tck s1⟩
-        ⟨w2 * numCpus k, procSecs tck u2, procSecs tck s2⟩
-      = round1 (procExact tck u1 s1 u2 s2 w1 w2) := by
-  have hn := numCpus_pos k
-  have hg := cfg_good
-  unfold procFinish procExact round1
-  simp only [hg.procFactor, hg.procDigits]
-  by_cases hw : w2 - w1 = 0
-  · have : w2 * numCpus k - w1 * numCpus k = 0 := by
-      have : w2 * numCpus k - w1 * numCpus k = (w2 - w1) * numCpus k := by ring
-      rw [this, hw]; ring
-    simp [hw, this, roundN_one_zero]
-  · have hne : w2 * numCpus k - w1 * numCpus k ≠ 0 := by
-      have : w2 * numCpus k - w1 * numCpus k = (w2 - w1) * numCpus k := by ring
-      rw [this]
-      exact mul_ne_zero hw (ne_of_gt hn)
-    simp only [hw, hne, if_false]
-    congr 1
-    have hn' : numCpus k ≠ 0 := ne_of_gt hn
-    unfold procSecs
-    push_cast
-    field_simp
-
-/-- after any history with a constant CPU count, an object's remembered samples are those of
-    its own previous call -/
-theorem prunAll_entry (tck : Nat) (k : Option Int) (h : List PCall) (hk : ∀ p ∈ h, p.ncpuRaw = k) :
-    ∀ (s : PSt) (q : Option (Rat × Nat × Nat)) (o : Nat),
-      s o = q.map (fun x => ⟨x.1 * numCpus k, procSecs tck x.2.1, procSecs tck x.2.2⟩) →
-      (prunAll cfg tck s h) o
-        = (h.foldl (pprevStep o) q).map
-            (fun x => ⟨x.1 * numCpus k, procSecs tck x.2.1, procSecs tck x.2.2⟩) := by
-  induction h with
-  | nil => intro s q o hs; exact hs
-  | cons p ps ih =>
-    intro s q o hs
-    simp only [prunAll, List.foldl_cons]
-    apply ih (fun x hx => hk x (by simp [hx]))
-    have hpk : p.ncpuRaw = k := hk p (by simp)
-    unfold pprevStep
-    by_cases ho : p.obj = o
-    · subst ho
-      rw [pstep_same, hpk]
-      simp only [if_true]
-      cases ptaken p with
-      | none => simpa using hs
-      | some v => obtain ⟨w, u, st⟩ := v; simp
-    · rw [pstep_other cfg tck s p o ho]
-      simpa [ho] using hs
-
 /-- **C07_proc_percent.** After ANY history of `cpu_percent` calls on any number of `Process`
     objects (CPU count constant): a call returns `round1(100·(CPU seconds used)/(wall seconds
     elapsed))` measured from that object's own previous call, 0.0 on the object's first call
@@ -360,7 +297,7 @@ theorem prunAll_entry (tck : Nat) (k : Option Int) (h : List PCall) (hk : ∀ p 
 theorem C07_proc_percent (tck : Nat) (k : Option Int) (h : List PCall) (p : PCall)
     (hk : ∀ q ∈ h, q.ncpuRaw = k) (hp : p.ncpuRaw = k) :
     (pstep cfg tck (prunAll cfg tck PSt.init h) p).2 = pexpected tck h p := by
-  have hs := prunAll_entry tck k h hk PSt.init none p.obj rfl
+  have hs := prunAll_entry cfg cfg_good tck k h hk PSt.init none p.obj rfl
   unfold pstep pexpected pexpectedExact
   by_cases hn : p.negative = true
   · simp [hn]
@@ -381,7 +318,7 @@ theorem C07_proc_percent (tck : Nat) (k : Option Int) (h : List PCall) (p : PCal
             | cons b bs =>
               obtain ⟨u1, s1⟩ := a
               obtain ⟨u2, s2⟩ := b
-              simp only [procFinish_eq]
+              simp only [procFinish_eq cfg cfg_good]
     · simp only [hb, Bool.false_eq_true, if_false]
       cases p.timer with
       | nil => rfl
@@ -395,7 +332,7 @@ theorem C07_proc_percent (tck : Nat) (k : Option Int) (h : List PCall) (p : PCal
           | none => simp [round1, roundN_one_zero]
           | some v =>
             obtain ⟨w1, u1, s1⟩ := v
-            simp only [Option.map_some, procFinish_eq]
+            simp only [Option.map_some, procFinish_eq cfg cfg_good]
 
 /-- **C07_proc_first_call_zero.** The first non-blocking call on an object returns 0.0. -/
 theorem C07_proc_first_call_zero (tck : Nat) (s : PSt) (p : PCall) (t : Rat) (u st : Nat)
